@@ -4,9 +4,8 @@
    cell operation; add_/sub_/mul_/div_/pow_/comparisons are the instances cell_op of model/M_tsops.v.
    Series / scalar operands and pairs of proper (multi-column) DataFrames are treated at full strength, including
    presync's per-column dispatch and the assembly of the per-column results into the result frame (theorems C08_frame_index, _pointwise, _comm).
-   Mixed operands (DataFrame x Series / scalar / single-column frame) are covered by C08_mixed_operands.  Two
-   operands without any proper frame where one is a single-column frame (result: a one-column frame), and
-   min_ / max_ on DataFrames follow the same model and are checked by correspondence. *)
+   Mixed operands (DataFrame x Series / scalar / single-column frame) are covered by C08_mixed_operands, the branch
+   without any proper frame by C08_single_column_branch, min_ / max_ on DataFrames by C08_min_max_frames. *)
 From Coq Require Import ZArith List Bool Lia.
 From PB Require Import model.M_align model.M_tsops proofs.P_align proofs.P_tsops.
 Import ListNotations.
@@ -327,6 +326,64 @@ Proof.
   - intros o h m ch a b P Ho HP. apply minmax_series. exact HP.
 Qed.
 Print Assumptions C08_operator_instances.
+
+(* whole-object instances for the four arithmetic operators: the public wrapper on two Series and on two proper frames *)
+Theorem C08_arith_instances o : (o = OpAdd \/ o = OpSub \/ o = OpMul \/ o = OpDiv) ->
+  (forall h m ch a b P, join_index h [index_of a; index_of b] = Some P ->
+     ts_op o h m ch (One (OS a)) (One (OS b)) =
+       Some (OS (map (fun t => (t, cell_op o (val_at m a t) (val_at m b t))) P))) /\
+  (forall h m ch ca ra cb rb P C, multi ca = true -> multi cb = true -> (forall x, ch <> HX x) ->
+     join_index h [index_of ra; index_of rb] = Some P -> join_index ch [ca; cb] = Some C ->
+     ts_op o h m ch (One (OF ca ra)) (One (OF cb rb)) =
+       Some (frame_result (cell_op o) m (op_default o) ca ra cb rb C P)).
+Proof.
+  intros Ho. split.
+  - intros h m ch a b P HP.
+    destruct Ho as [->|[->|[->| ->]]]; unfold ts_op, reduce_op, reduce, pre_reduce; cbn [as_list app fold_left cell_op op_default];
+      f_equal; apply binop_series; exact HP.
+  - intros h m ch ca ra cb rb P C Ha Hb Hch HP HC.
+    destruct Ho as [->|[->|[->| ->]]]; unfold ts_op, reduce_op, reduce, pre_reduce; cbn [as_list app fold_left cell_op op_default];
+      f_equal; apply binop_frames; assumption.
+Qed.
+Print Assumptions C08_arith_instances.
+
+(* neither operand a proper frame, at least one a timeseries (Series or single-column frame = pseudo-series): one call;
+   the result is the pointwise series, wrapped into a one-column frame iff an operand was a single-column frame
+   (the name of that column is not claimed: 0 in the model) *)
+Theorem C08_single_column_branch opc h m ch d a b P : pseudo a = true -> pseudo b = true ->
+  join_index h (pd_indexes [a; b]) = Some P -> is_ser a 0 || is_ser b 0 = true ->
+  let s := map (fun t => (t, opc (ocell m d a 0 t) (ocell m d b 0 t))) P in
+  binop opc h m ch d a b = (if has1 a || has1 b then OF [0] (map (fun p => (fst p, [snd p])) s) else OS s) /\
+  index_of s = P /\
+  (forall t, In t P -> lookup t s = Some (opc (ocell m d a 0 t) (ocell m d b 0 t))) /\
+  (forall c0 r t, ocell m d (OF [c0] r) 0 t = row_get [c0] (row_val m [c0] r t) c0).
+Proof.
+  intros Pa Pb HP Hs s. split; [exact (binop_pseudo opc h m ch d a b P Pa Pb HP Hs)|].
+  split; [apply (index_map_fn (fun t => opc (ocell m d a 0 t) (ocell m d b 0 t)))|].
+  split; [intros t Ht; apply (lookup_map_fn None is_nan (fun t => opc (ocell m d a 0 t) (ocell m d b 0 t)) P t Ht) | reflexivity].
+Qed.
+Print Assumptions C08_single_column_branch.
+
+(* min_ / max_ on DataFrames (df_sync, then np.minimum / np.maximum reduced left to right): joint index, column set by
+   policy, cell (t, x) = left-to-right min / max of the frames' aligned cells, a frame lacking column x or timestamp t
+   contributing NaN; minc / maxc propagate NaN (C08_operator_instances) *)
+Theorem C08_min_max_frames o h m ch c0 r0 rest P C : (o = OpMin \/ o = OpMax) -> all_frames (OF c0 r0 :: rest) ->
+  join_index h (pd_indexes (OF c0 r0 :: rest)) = Some P -> join_index ch (frame_cols (OF c0 r0 :: rest)) = Some C ->
+  minmax (cell_op o) h m ch (OF c0 r0 :: rest) =
+    Some (OF C (map (fun t => (t, map (fun x => fold_left (cell_op o) (map (fun f => ocell m None f x t) rest)
+                                                           (ocell m None (OF c0 r0) x t)) C)) P)) /\
+  (forall cs acc, fold_left (cell_op o) cs None = None /\ (In None cs -> fold_left (cell_op o) cs acc = None)).
+Proof.
+  intros Ho Hall HP HC. split; [apply minmax_frames; assumption|].
+  assert (Hl : forall x, cell_op o None x = None) by (destruct Ho as [->| ->]; intros x; reflexivity).
+  assert (Hr : forall x, cell_op o x None = None) by (destruct Ho as [->| ->]; intros [x|]; reflexivity).
+  assert (HN : forall cs, fold_left (cell_op o) cs None = None).
+  { induction cs as [|c cs IH]; [reflexivity|]. cbn [fold_left]. rewrite Hl. exact IH. }
+  intros cs acc. split; [apply HN|]. revert acc. induction cs as [|c cs IH]; intros acc [].
+  - subst c. cbn [fold_left]. rewrite Hr. apply HN.
+  - cbn [fold_left]. apply IH. assumption.
+Qed.
+Print Assumptions C08_min_max_frames.
 
 (* non-vacuity: partially overlapping series, a zero divisor, NaNs; frames with different column sets *)
 Example C08_example :
